@@ -18,6 +18,29 @@ Theorem C20_ignores_unrequested : forall H children s d,
 Proof. exact on_data_ignored. Qed.
 Print Assumptions C20_ignores_unrequested.
 
+(* a delivery whose database write fails (bk.Set returns an error inside OnData), ANY state:
+   the request stays outstanding, nothing that was outstanding is dropped, nothing is lost
+   from the store, nothing is counted as resolved — so the hash is asked for again *)
+Theorem C20_failed_delivery_keeps_request : forall H children s d i bks,
+  find_req (pending s) (H d) = Some bks ->
+  let s' := fst (on_data_fail H children s d i) in
+  snd (on_data_fail H children s d i) = RFail /\
+  find_req (pending s') (H d) <> None /\
+  (forall r, req_in (pending s) r -> req_in (pending s') r) /\
+  (forall bk, In bk bks -> req_in (pending s') (bk, H d)) /\
+  (forall c, db_has (dbs s) c = true -> db_has (dbs s') c = true) /\
+  resolved s' = resolved s.
+Proof. exact failed_delivery_keeps_request. Qed.
+Print Assumptions C20_failed_delivery_keeps_request.
+
+(* if the FIRST write fails (always the case for a request with one requester) the builder is
+   unchanged: such a failed delivery can be erased from a history, and every theorem below
+   applies to the history without it *)
+Theorem C20_failed_first_write_noop : forall H children s d,
+  find_req (pending s) (H d) <> None -> on_data_fail H children s d 0 = (s, RFail).
+Proof. exact failed_first_write_noop. Qed.
+Print Assumptions C20_failed_first_write_noop.
+
 (* one delivery, ANY builder state: whatever becomes readable is the delivered bytes, stored
    under their own hash, in a bucket that was waiting for exactly that hash *)
 Theorem C20_stores_only_requested_step : forall H children s d r x,
